@@ -683,7 +683,7 @@ func factsCommand(args []string) bool {
 	w("fieldWritesCanon", "List (String × String)", leanList(fieldWrites(canonPkg)))
 	w("baseUrlUses", "List String", leanStrList(baseUrlUses(urlPkg)))
 	w("spMethods", "List (String × Bool × Bool)", leanList(spMethods(urlPkg)))
-	w("callees", "List (String × List String)", leanList(calleesOf(urlPkg, map[string]bool{"Url.Clone": true, "Url.SetSearch": true, "Url.SearchParams": true, "Url.newUrlSearchParams": true, "SearchParams.Clone": true, "parser.Parse": true, "parser.ParseRef": true, "Url.Parse": true, "Parse": true, "ParseRef": true, "path.clone": true})))
+	w("callees", "List (String × List String)", leanList(calleesOf(urlPkg, map[string]bool{"Url.Clone": true, "Url.SetSearch": true, "Url.SearchParams": true, "Url.newUrlSearchParams": true, "SearchParams.Clone": true, "parser.Parse": true, "parser.ParseRef": true, "Url.Parse": true, "Parse": true, "ParseRef": true, "path.clone": true, "SearchParams.Sort": true, "SearchParams.SortAbsolute": true})))
 	w("exoticFeatures", "List String", leanStrList(exoticFeatures(urlPkg, canonPkg)))
 	w("costSitesUrl", "List (String × String)", leanList(costSites(urlPkg)))
 	w("costSitesCanon", "List (String × String)", leanList(costSites(canonPkg)))
